@@ -3,6 +3,7 @@
   `solve`, `solve_initial_point` on two systems related by `KRel` give the same answers.
 -/
 import ClarabelProofs.Lemmas.SolverStaleCones
+import ClarabelProofs.Lemmas.SolveInitPointCore
 namespace Clarabel.Solver
 open Clarabel Info Residuals
 set_option linter.unusedSectionVars false
@@ -154,20 +155,20 @@ theorem KktSys.solve_rel {Bw Bs : KktSolver α → KktSolver α → Prop} (hsim 
 /-- the three vectors of an iterate agree -/
 def VarsXSZ (v v' : Vars α) : Prop := v.x = v'.x ∧ v.s = v'.s ∧ v.z = v'.z
 
-/-- `solve_initial_point`: same flag; the iterate it returns is the same whenever it succeeded (a
-failed KKT solve leaves the incoming — stale — vectors in place), or when the incoming iterates
-were the same anyway -/
-theorem KktSys.solveInitialPoint_rel {Bw Bs : KktSolver α → KktSolver α → Prop} (hsim : KktSim Bw Bs) {n : Nat}
+/-- the part of `solve_initial_point` after the zero-fill (the whole function before /repo 7c1c881):
+same flag; the iterate it returns is the same whenever it succeeded (a failed KKT solve leaves the
+incoming vectors in place), or when the incoming iterates were the same anyway -/
+theorem KktSys.solveInitialPointCore_rel {Bw Bs : KktSolver α → KktSolver α → Prop} (hsim : KktSim Bw Bs) {n : Nat}
     {S S' : KktSys α} {vars vars' : Vars α} (data : ProblemData α) (st : LinSettings α)
     {nq : Nat} (h : KRel Bs n nq S S') (hv : VarsShape vars vars') :
     RelM (fun r r' => r.1 = r'.1 ∧ ((r.1 = true ∨ VarsXSZ vars vars') → VarsXSZ r.2.1 r'.2.1)
         ∧ VarsShape r.2.1 r'.2.1 ∧ KRel Bs n nq r.2.2 r'.2.2)
-      (S.solveInitialPoint vars data st) (S'.solveInitialPoint vars' data st) := by
+      (S.solveInitialPointCore vars data st) (S'.solveInitialPointCore vars' data st) := by
   obtain ⟨ks, x1, z1, x2, z2, wx, wz, wc⟩ := S
   obtain ⟨ks', x1', z1', x2', z2', wx', wz', wc'⟩ := S'
   obtain ⟨hks, hx1, hz1, hx2, hz2, hwx, hwz, hwc⟩ := h
   dsimp only at hks hx1 hz1 hx2 hz2 hwx hwz hwc
-  unfold KktSys.solveInitialPoint
+  unfold KktSys.solveInitialPointCore
   dsimp only
   split
   · rw [map_const_congr (0 : α) hwx.1, copyInto_congr data.b "workz" hwz]
@@ -255,5 +256,36 @@ theorem KktSys.solveInitialPoint_rel {Bw Bs : KktSolver α → KktSolver α → 
         split
         · rfl
         · exact ⟨rfl, fun _ => ⟨rfl, rfl, rfl⟩, ⟨rfl, rfl, rfl⟩, ⟨h4, hx1, hz1, hx2, hz2, SameFrom.rfl' _ _, rfl, hwc⟩⟩
+
+theorem VarsShape.zeroXSZ {v v' : Vars α} (h : VarsShape v v') : VarsShape (zeroXSZ v) (zeroXSZ v') :=
+  ⟨by rw [zeroXSZ_size_x, zeroXSZ_size_x, h.x], by rw [zeroXSZ_size_s, zeroXSZ_size_s, h.s],
+    by rw [zeroXSZ_size_z, zeroXSZ_size_z, h.z]⟩
+
+theorem VarsXSZ.zeroXSZ {v v' : Vars α} (h : VarsShape v v') : VarsXSZ (zeroXSZ v) (zeroXSZ v') :=
+  zeroXSZ_congr h.x h.s h.z
+
+/-- `solve_initial_point` (since /repo 7c1c881 it zero-fills `variables.x/s/z` first): same flag and —
+whether the KKT solves succeed or not, whatever the incoming iterates hold — the SAME iterate: the
+content of the incoming `x, s, z` is dead, only their lengths are read. -/
+theorem KktSys.solveInitialPoint_rel_any {Bw Bs : KktSolver α → KktSolver α → Prop} (hsim : KktSim Bw Bs) {n : Nat}
+    {S S' : KktSys α} {vars vars' : Vars α} (data : ProblemData α) (st : LinSettings α)
+    {nq : Nat} (h : KRel Bs n nq S S') (hv : VarsShape vars vars') :
+    RelM (fun r r' => r.1 = r'.1 ∧ VarsXSZ r.2.1 r'.2.1 ∧ VarsShape r.2.1 r'.2.1 ∧ KRel Bs n nq r.2.2 r'.2.2)
+      (S.solveInitialPoint vars data st) (S'.solveInitialPoint vars' data st) := by
+  rw [KktSys.solveInitialPoint_eq_core, KktSys.solveInitialPoint_eq_core]
+  refine (KktSys.solveInitialPointCore_rel hsim data st h hv.zeroXSZ).mono ?_
+  rintro r r' ⟨h1, h2, h3, h4⟩
+  exact ⟨h1, h2 (Or.inr (VarsXSZ.zeroXSZ hv)), h3, h4⟩
+
+/-- `solve_initial_point`, the statement as it was needed before /repo 7c1c881 (superseded by
+`solveInitialPoint_rel_any`: the premise of the second conjunct is no longer needed) -/
+theorem KktSys.solveInitialPoint_rel {Bw Bs : KktSolver α → KktSolver α → Prop} (hsim : KktSim Bw Bs) {n : Nat}
+    {S S' : KktSys α} {vars vars' : Vars α} (data : ProblemData α) (st : LinSettings α)
+    {nq : Nat} (h : KRel Bs n nq S S') (hv : VarsShape vars vars') :
+    RelM (fun r r' => r.1 = r'.1 ∧ ((r.1 = true ∨ VarsXSZ vars vars') → VarsXSZ r.2.1 r'.2.1)
+        ∧ VarsShape r.2.1 r'.2.1 ∧ KRel Bs n nq r.2.2 r'.2.2)
+      (S.solveInitialPoint vars data st) (S'.solveInitialPoint vars' data st) :=
+  (KktSys.solveInitialPoint_rel_any hsim data st h hv).mono
+    fun _ _ ⟨h1, h2, h3, h4⟩ => ⟨h1, fun _ => h2, h3, h4⟩
 
 end Clarabel.Solver
